@@ -35,6 +35,9 @@ def main():
         except Exception as e:  # translator cannot read the code any more
             broken.append('translator failed: %r' % (e,))
             log(traceback.format_exc())
+        # a translator that could produce only part of its output says so here (harness/srcobl.py: a source
+        # function that no longer translates): each entry is a proof obligation that no longer checks
+        broken += list(gen_info.pop('_broken', None) or [])
 
     # 2. build the proofs and the driver
     targets = list(mod.LEAN_MODULES) + ['yaqlmodel']
